@@ -437,7 +437,7 @@ func (srv *server) registerClient(connect *packets.Connect, client *client) (ses
 				err = qs.Init(&queue.InitOptions{
 					CleanStart:     false,
 					Version:        client.version,
-					ReadBytesLimit: client.opts.ClientMaxPacketSize,
+					ReadBytesLimit: client.readBytesLimit(),
 					Notifier:       client.queueNotifier,
 				})
 				if err != nil {
@@ -476,7 +476,7 @@ func (srv *server) registerClient(connect *packets.Connect, client *client) (ses
 		err = qs.Init(&queue.InitOptions{
 			CleanStart:     true,
 			Version:        client.version,
-			ReadBytesLimit: client.opts.ClientMaxPacketSize,
+			ReadBytesLimit: client.readBytesLimit(),
 			Notifier:       client.queueNotifier,
 		})
 		if err != nil {
